@@ -569,8 +569,23 @@ Record call := {
   c_t0 : N; c_t1 : N; c_t2 : N; c_t3 : N;   (* entry, child entry, child exit, exit *)
   c_child : N;                    (* address of the nested sentinel call *)
   c_has_args : bool;              (* TRIGGER_FL_ARGUMENT *)
-  c_has_ret : bool                (* TRIGGER_FL_RETVAL *)
+  c_has_ret : bool;               (* TRIGGER_FL_RETVAL *)
+  c_captured : bool               (* the exit hook was handed the return registers (retval != NULL);
+                                     false: the frame was closed without a return value - exception unwinding,
+                                     pthread_exit, --estimate-return (mcount_exit_filter_record(.., NULL)).
+                                     Then the sentinel call follows the exit as a sibling:
+                                     c_t1 = exit, c_t2 / c_t3 = entry / exit of the sentinel at depth 0 *)
 }.
+
+(* what record_trace_data hands to record_ret_stack for the EXIT record: there is a return value in the argument
+   buffer only if the frame carries MCOUNT_FL_RETVAL *and* the exit hook got the return registers; otherwise the
+   flag is dropped, the record has no payload and its `more` bit is clear (the buffer still holds the arguments
+   of the entry: they are not a return value) *)
+Definition exit_payload (has_ret captured : bool) (sx : mst) : option (list N) :=
+  if has_ret && captured then payload sx else None.
+Definition exit_rec (bg fill : N) (inp : inputs) (specs : list spec) (has_ret captured : bool)
+    (t depth addr : N) : list N :=
+  enc_rec bg t UFTRACE_EXIT depth addr (exit_payload has_ret captured (run fill inp true specs)).
 
 Record observation := {
   o_img_entry : list N;           (* argbuf (and what follows it) after the entry hook, trailing fill stripped *)
@@ -588,16 +603,23 @@ Definition model_call (syms : symtab) (c : call) : observation :=
   let se := run (c_fill c) (c_inp c) false (c_specs c) in
   let sx := run (c_fill c) (c_inp c) true (c_specs c) in
   let pe := if c_has_args c then payload se else None in
-  let px := if c_has_ret c then payload sx else None in
+  let saved := c_has_ret c && c_captured c in
+  let px := exit_payload (c_has_ret c) (c_captured c) sx in
   {| o_img_entry := if c_has_args c then rstrip (c_fill c) (image (c_fill c) se) else [];
-     o_img_exit := if c_has_ret c then rstrip (c_fill c) (image (c_fill c) sx) else [];
+     o_img_exit := if saved then rstrip (c_fill c) (image (c_fill c) sx) else [];
      o_cut_entry := None; o_cut_exit := None;
      o_hi_entry := if c_has_args c then lenN (rstrip (c_fill c) (image (c_fill c) se)) else 0;
-     o_hi_exit := if c_has_ret c then lenN (rstrip (c_fill c) (image (c_fill c) sx)) else 0;
-     o_stream := enc_rec 0 (c_t0 c) UFTRACE_ENTRY 0 (c_addr c) pe ++
-                 enc_rec 0 (c_t1 c) UFTRACE_ENTRY 1 (c_child c) None ++
-                 enc_rec 0 (c_t2 c) UFTRACE_EXIT 1 (c_child c) None ++
-                 enc_rec 0 (c_t3 c) UFTRACE_EXIT 0 (c_addr c) px;
+     o_hi_exit := if saved then lenN (rstrip (c_fill c) (image (c_fill c) sx)) else 0;
+     o_stream := if c_captured c then
+                   enc_rec 0 (c_t0 c) UFTRACE_ENTRY 0 (c_addr c) pe ++
+                   enc_rec 0 (c_t1 c) UFTRACE_ENTRY 1 (c_child c) None ++
+                   enc_rec 0 (c_t2 c) UFTRACE_EXIT 1 (c_child c) None ++
+                   enc_rec 0 (c_t3 c) UFTRACE_EXIT 0 (c_addr c) px
+                 else
+                   enc_rec 0 (c_t0 c) UFTRACE_ENTRY 0 (c_addr c) pe ++
+                   enc_rec 0 (c_t1 c) UFTRACE_EXIT 0 (c_addr c) px ++
+                   enc_rec 0 (c_t2 c) UFTRACE_ENTRY 0 (c_child c) None ++
+                   enc_rec 0 (c_t3 c) UFTRACE_EXIT 0 (c_child c) None;
      o_args_text := show_args_b syms (c_specs c) pe;
      o_ret_text := show_ret_b syms (c_specs c) px |}.
 
@@ -1033,7 +1055,8 @@ Definition reader_entry_auto_first (o : fopts) : entry :=
 (* test cases as the driver writes them: the specs are taken from the call *)
 Definition judge_of (c : call) (o : observation) (aargs aret : list aval) : judged :=
   {| j_args := combine (filter (fun s => negb (s_idx s =? 0)) (c_specs c)) aargs;
-     j_ret := combine (filter (fun s => s_idx s =? 0) (c_specs c)) aret;
+     (* a call that was closed without a return value must be shown without one *)
+     j_ret := if c_captured c then combine (filter (fun s => s_idx s =? 0) (c_specs c)) aret else [];
      j_obs := o |}.
 Definition Sp (idx : N) (f : fmt) (size : N) (t : atype) (u : N) : spec :=
   {| s_idx := idx; s_fmt := f; s_size := size; s_type := t; s_u := Z.of_N u; s_regs := []; s_name := [] |}.
@@ -1049,7 +1072,7 @@ Definition script_model (l : lang) (c : call) : sobs :=
   let se := run (c_fill c) (c_inp c) false (c_specs c) in
   let sx := run (c_fill c) (c_inp c) true (c_specs c) in
   {| so_args := script_args l (c_specs c) (if c_has_args c then payload se else None);
-     so_ret := script_ret l (c_specs c) (if c_has_ret c then payload sx else None) |}.
+     so_ret := script_ret l (c_specs c) (exit_payload (c_has_ret c) (c_captured c) sx) |}.
 Definition script_agrees (l : lang) (c : call) (o : option sobs) : bool :=
   match o with
   | None => true
